@@ -53,6 +53,10 @@ type tStmt struct {
 }
 
 func (g tGraph) coq() string {
+	// the embedded stores scan in key order (graph, then id): the model graph lists elements in that order, so
+	// that a window directly after a scan cuts the same rows in the model as in the store. Later duplicates of
+	// an id overwrite earlier ones in the store: they are kept here in insertion order behind each other.
+	g = g.sortedByID()
 	vs := make([]string, len(g.V))
 	for i, v := range g.V {
 		vs[i] = coq.Record("v_id", coq.Str(v.ID), "v_label", coq.Str(v.Label), "v_data", jmapCoq(normArg(v.Data).(map[string]interface{})))
@@ -63,6 +67,13 @@ func (g tGraph) coq() string {
 			"ed_data", jmapCoq(normArg(e.Data).(map[string]interface{})))
 	}
 	return coq.Record("gv", coq.List(vs), "ge", coq.List(es))
+}
+
+func (g tGraph) sortedByID() tGraph {
+	out := tGraph{V: append([]tVertex{}, g.V...), E: append([]tEdge{}, g.E...)}
+	sort.SliceStable(out.V, func(i, j int) bool { return out.V[i].ID < out.V[j].ID })
+	sort.SliceStable(out.E, func(i, j int) bool { return out.E[i].ID < out.E[j].ID })
+	return out
 }
 
 func (s tStmt) coq() string {
@@ -579,7 +590,7 @@ func randProgram(rng *rand.Rand, maxLen int, opts progOpts) []tStmt {
 			if !last && !(i == n-2) || windowUsed {
 				continue
 			}
-			fs := [][]string{{}, {"_label"}, {"name"}, {"name", "w"}, {"missing"}}
+			fs := [][]string{{}, {"_label"}, {"name"}, {"name", "w"}, {"missing"}, {"w"}, {"n"}}
 			if len(marks) > 0 {
 				fs = append(fs, []string{"$" + marks[0] + "._gid"})
 			}
@@ -611,7 +622,9 @@ func randProgram(rng *rand.Rand, maxLen int, opts progOpts) []tStmt {
 	return p
 }
 
-func isWindow(op string) bool { return op == "limit" || op == "skip" || op == "range" || op == "distinct" }
+func isWindow(op string) bool {
+	return op == "limit" || op == "skip" || op == "range" || op == "distinct"
+}
 
 type progOpts struct {
 	illTyped bool
